@@ -292,6 +292,18 @@ func templates(r *common.Rand) []template {
 	}
 	ts = append(ts, mk("multisig-1of2", bscript.ScriptTypeMultiSig, ms(1, key(r, 33), key(r, 33))))
 	ts = append(ts, mk("multisig-2of3", bscript.ScriptTypeMultiSig, ms(2, key(r, 33), key(r, 65), key(r, 33))))
+	// the small-integer opcode boundaries: n = 15 and 16 keys, m = 1, 15, 16
+	many := func(n int) [][]byte {
+		var ks [][]byte
+		for i := 0; i < n; i++ {
+			ks = append(ks, key(r, 33))
+		}
+		return ks
+	}
+	ts = append(ts, mk("multisig-1of16", bscript.ScriptTypeMultiSig, ms(1, many(16)...)))
+	ts = append(ts, mk("multisig-16of16", bscript.ScriptTypeMultiSig, ms(16, many(16)...)))
+	ts = append(ts, mk("multisig-15of15", bscript.ScriptTypeMultiSig, ms(15, many(15)...)))
+	ts = append(ts, mk("multisig-1of1", bscript.ScriptTypeMultiSig, ms(1, many(1)...)))
 	data := func(prefix []byte, items ...[]byte) []byte {
 		s := append([]byte{}, prefix...)
 		for _, it := range items {
@@ -356,6 +368,9 @@ func main() {
 		// every position x every other byte value on the Go side; the model side sees five values per
 		// position in quick and all of them in thorough
 		for pos := range base {
+			if len(base) > 160 && !full && pos >= 40 && pos < len(base)-40 {
+				continue // big templates (15/16-key multisig): quick tier mutates the first and last 40 bytes
+			}
 			for v := 0; v < 256; v++ {
 				if byte(v) == base[pos] {
 					continue
@@ -394,6 +409,22 @@ func main() {
 				repl("push-minus-last-byte", tok[:len(tok)-1])
 				repl("push-header-only", tok[:1])
 				repl("push-non-minimal", sg.Push(sg.FormPD1, tok[1:]))
+				// the same data behind a PUSHDATA1/2/4 header announcing 1..3 (resp. up to 5) bytes more than are
+				// there: in the middle it swallows what follows, as the LAST token it is a truncated push
+				for short := 1; short <= 5; short++ {
+					d := tok[1:]
+					if tok[0] == 0x4c {
+						d = tok[2:]
+					}
+					n := len(d) + short
+					if short <= 1 {
+						repl("push-pd1-short", append([]byte{0x4c, byte(n)}, d...))
+					}
+					if short <= 3 {
+						repl("push-pd2-short", append([]byte{0x4d, byte(n), byte(n >> 8)}, d...))
+					}
+					repl("push-pd4-short", append([]byte{0x4e, byte(n), byte(n >> 8), 0, 0}, d...))
+				}
 				repl("push->one-byte", []byte{0x01, tok[len(tok)-1]})
 			} else {
 				repl("op->4c00", []byte{0x4c, 0x00})
